@@ -107,8 +107,26 @@ pub fn ensure_bin() {
     let _ = std::fs::create_dir_all(run_dir());
 }
 
+static TIMEOUT_RETRIES: AtomicU64 = AtomicU64::new(0);
+static RETRY_LOCK: std::sync::Mutex<()> = std::sync::Mutex::new(());
+
 /// Run the CLI on source bytes with the given stdin script (pipe closed after the script).
+/// A watchdog expiry is double-checked before it is believed: the run is repeated once, alone (the
+/// retries are serialised) and with five times the time limit, so that a heavily loaded machine does not
+/// turn into a verdict. At most 8 such retries per process: a tree that really hangs everywhere must
+/// not make the check take hours.
 pub fn run_cli_bytes(src: &[u8], stdin: &[u8], o: &CliOpts) -> CliOut {
+    let out = run_cli_once(src, stdin, o);
+    if out.timed_out && !out.capped && TIMEOUT_RETRIES.fetch_add(1, Ordering::Relaxed) < 8 {
+        let _g = RETRY_LOCK.lock().unwrap_or_else(|e| e.into_inner());
+        let mut o2 = o.clone();
+        o2.timeout_ms = o.timeout_ms * 5;
+        return run_cli_once(src, stdin, &o2);
+    }
+    out
+}
+
+fn run_cli_once(src: &[u8], stdin: &[u8], o: &CliOpts) -> CliOut {
     let n = SEQ.fetch_add(1, Ordering::Relaxed);
     CLI_RUNS.fetch_add(1, Ordering::Relaxed);
     let path = format!("{}/{}-{}.s", run_dir(), std::process::id(), n);
